@@ -189,6 +189,20 @@ Theorem C03_failed_probe_leaves_no_trace :
 Proof. exact failed_probe_leaves_no_trace. Qed.
 Print Assumptions C03_failed_probe_leaves_no_trace.
 
+(* The answer promises the store: when [do_request] returns an outcome with oc_stored = true, the entry is
+   ALREADY indexed and readable in the state it returns (DiskCache::put has committed before the response is
+   produced) — so the identical request may follow at once, and a graceful stop finds nothing in flight
+   ([quiet]: no handle, no reservation is pending between two requests). *)
+Theorem C03_response_implies_stored :
+  forall (key_of : fingerprint -> key) (compile : request -> N -> cresult)
+         (c0 : N) (h0 : list event) (r : request) (w1 : world) (o : outcome),
+  do_request key_of compile (run_events key_of compile (empty_world c0) h0) r = (w1, o) ->
+  oc_stored o = true ->
+  cached key_of w1 r = true /\ alookup (req_path key_of r) (w_content w1) <> None /\
+  handles (w_store w1) = [] /\ pending_size (w_store w1) = 0.
+Proof. exact response_implies_stored. Qed.
+Print Assumptions C03_response_implies_stored.
+
 (* ---------- non-vacuity ---------- *)
 Import C03Example.
 
